@@ -1,6 +1,256 @@
-From MWF Require Import Base.Str Spec.Json Spec.Schema Gen.SpecData Spec.Verify Spec.SpecProofs.
-From Coq Require Import List ZArith.
-Theorem C13_enums : forall x, In x priority_enum ->
+(** C13 -- malformed specifications are rejected cleanly; accepted ones are usable.
+
+    Model: Spec/Verify.v ([verify_and_build] = yaml load, [verify], the three
+    consumers, run_study's reserved names, [Study.add_step] per step) over
+    Spec/Json.v documents (unbounded) and the schema REGENERATED from
+    maestrowf/specification/schemas/yamlspecification.json (Gen/SpecData.v).
+    Outcomes: [Accept steps] | [Reject (Diag _)] (ValidationError / ValueError)
+    | [Reject Internal] (KeyError / TypeError / AttributeError ...).
+    [C13_ok] is the monitor the harness evaluates on the IMPLEMENTATION's
+    outcome for every generated document; [C13_monitor] is the theorem that the
+    model always satisfies it.
+
+    [build d] is the pipeline on a loaded document (what yaml.load returned),
+    [verify_and_build doc = build (yaml_load doc)] on a document as written.
+
+    Known finding K5 (hypothesis [nodupkeys doc = true] of [C13_monitor]): a
+    mapping that repeats a key is merged silently by the YAML loader before
+    verification can see it -- [C13_K5_refuted]. *)
+From Coq Require Import List ZArith NArith Bool Arith.
+From MWF Require Import Base.Str Spec.Json Spec.Schema Gen.SpecData Spec.Verify
+  Spec.SchemaProofs Spec.SpecProofs Spec.SpecAccept Spec.SpecReject Spec.SpecExamples.
+Import ListNotations.
+
+(* =========================================================== core theorems *)
+
+(** The pipeline never ends in an internal error, whatever the document. *)
+Theorem C13_never_internal : forall doc : jv, verify_and_build doc <> Reject Internal.
+Proof. exact written_never_internal. Qed.
+Print Assumptions C13_never_internal.
+
+(** [verify] accepts => every key the consumers index (name, description, run,
+    run.cmd/depends, values, label, dependency name/path/url, ...) is present
+    with the type the consumer needs: get_study_environment, get_study_steps,
+    get_parameters and Study.add_step are total (never Internal) on it; and
+    [verify] itself never crashes. *)
+Theorem C13_keys_safe : forall (sp : spec) (u : unit), verify sp = Ok u ->
+  get_study_environment (sp_env sp) <> Err Internal /\
+  get_study_steps (sp_study sp) <> Err Internal /\
+  get_parameters (sp_globals sp) <> Err Internal /\
+  (forall steps nodes, get_study_steps (sp_study sp) = Ok steps ->
+                       mfold add_step steps nodes <> Err Internal).
+Proof. exact consumers_total. Qed.
+Print Assumptions C13_keys_safe.
+
+Theorem C13_verify_total : forall sp : spec, verify sp <> Err Internal.
+Proof. exact verify_never_internal. Qed.
+Print Assumptions C13_verify_total.
+
+(** Accepted => the built study's step list is the document's step names, in
+    order: nothing dropped, nothing renamed, nothing added. *)
+Theorem C13_no_drop : forall (doc : jv) (ns : list str),
+  verify_and_build doc = Accept ns -> ns = step_names (yaml_load doc).
+Proof. exact written_no_drop. Qed.
+Print Assumptions C13_no_drop.
+
+(** Every string of the schema's priority enum is understood by
+    StepPriority.from_str and has a Flux urgency in 0..31 (both regenerated
+    from the source); the numeric branch ceil(x * scale) stays in range for the
+    schema's 0 <= x <= 1. *)
+Theorem C13_enums : forall x : str, In x priority_enum ->
   exists p u, priority_from_str x = Some p /\ urgency_of p flux_urgency_table = Some u /\ (0 <= u <= 31)%Z.
 Proof. exact enums_ok. Qed.
 Print Assumptions C13_enums.
+
+Theorem C13_enums_numeric : forall n d : Z, (0 < d)%Z -> (0 <= n <= d)%Z ->
+  (0 <= flux_urgency_num n d <= flux_urgency_scale)%Z.
+Proof. exact urgency_num_range. Qed.
+Print Assumptions C13_enums_numeric.
+
+(** The monitor holds on the model for every document that does not repeat a
+    key: never Internal; accepted => the loaded document breaks no documented
+    rule ([malformed] = schema violation at any depth, duplicate step names,
+    self / undefined / forward dependency, value lists of different lengths,
+    duplicate or empty variable / label / dependency names) and the step list
+    is the document's. *)
+Theorem C13_monitor : forall doc : jv, nodupkeys doc = true -> C13_ok doc (verify_and_build doc) = true.
+Proof. exact monitor_holds. Qed.
+Print Assumptions C13_monitor.
+
+(* ======================================================= extended theorems *)
+
+(** Every malformed (loaded) document is rejected WITH A DIAGNOSTIC. *)
+Theorem C13_reject_malformed : forall d : jv, malformed d = true -> exists dg, build d = Reject (Diag dg).
+Proof. exact malformed_rejected. Qed.
+Print Assumptions C13_reject_malformed.
+
+(** Schema classes, at ANY position [p] the schema can be navigated to
+    (through properties / patternProperties / items): replacing the value at
+    [p] by one its sub-schema does not admit is rejected with a diagnostic. *)
+Theorem C13_reject_at : forall (d : jv) (p : path) (sc : schema) (x : jv),
+  value_at d p <> None -> schema_at DOC p = Some sc -> valid sc x = false ->
+  exists dg, build (set_at d p x) = Reject (Diag dg).
+Proof. exact reject_invalid_at. Qed.
+Print Assumptions C13_reject_at.
+
+(** class "delete a required key" *)
+Theorem C13_reject_delete_required : forall (d : jv) (p : path) (sc : schema) (l : list (str * jv)) (k : str),
+  value_at d p = Some (JObj l) -> schema_at DOC p = Some sc -> In k (required_of sc) ->
+  exists dg, build (set_at d p (JObj (remove_key k l))) = Reject (Diag dg).
+Proof. exact reject_delete_required. Qed.
+Print Assumptions C13_reject_delete_required.
+
+(** class "empty string for a string that must not be empty" *)
+Theorem C13_reject_empty_string : forall (d : jv) (p : path) (sc : schema),
+  value_at d p <> None -> schema_at DOC p = Some sc -> (1 <= min_length_of sc)%nat ->
+  exists dg, build (set_at d p (JStr [])) = Reject (Diag dg).
+Proof. exact reject_empty_string. Qed.
+Print Assumptions C13_reject_empty_string.
+
+(** class "unknown key" in a closed mapping (step, run, parameter, env, path / git dependency) *)
+Theorem C13_reject_unknown_key : forall (d : jv) (p : path) (sc : schema) (l : list (str * jv)) (k : str) (x : jv),
+  value_at d p = Some (JObj l) -> schema_at DOC p = Some sc ->
+  closed_of sc = true -> pattern_all_of sc = None -> ~ In k (map fst (props_of sc)) ->
+  exists dg, build (set_at d p (JObj (l ++ [(k, x)]))) = Reject (Diag dg).
+Proof. exact reject_unknown_key. Qed.
+Print Assumptions C13_reject_unknown_key.
+
+(** class "wrong JSON type at a schema-typed position" *)
+Theorem C13_reject_wrong_type : forall (d : jv) (p : path) (sc : schema) (t : jty) (x : jv),
+  value_at d p <> None -> schema_at DOC p = Some sc -> type_of sc = Some t -> has_type t x = false ->
+  exists dg, build (set_at d p x) = Reject (Diag dg).
+Proof. exact reject_wrong_type. Qed.
+Print Assumptions C13_reject_wrong_type.
+
+(** ... and at an anyOf position (nodes, procs, walltime, priority, ...): a
+    value no alternative admits *)
+Theorem C13_reject_no_alternative : forall (d : jv) (p : path) (sc : schema) (ss : list schema) (x : jv),
+  value_at d p <> None -> schema_at DOC p = Some sc -> In (KAnyOf ss) sc ->
+  forallb (fun a => negb (valid a x)) ss = true ->
+  exists dg, build (set_at d p x) = Reject (Diag dg).
+Proof. exact reject_no_alternative. Qed.
+Print Assumptions C13_reject_no_alternative.
+
+(** class "label list" (label / value-list mismatch): a parameter label must be a string *)
+Theorem C13_reject_label_list : forall (d : jv) (name : str) (ll : list jv),
+  value_at d [PKey (s "global.parameters"); PKey name; PKey (s "label")] <> None ->
+  exists dg, build (set_at d [PKey (s "global.parameters"); PKey name; PKey (s "label")] (JArr ll)) = Reject (Diag dg).
+Proof. exact reject_label_list. Qed.
+Print Assumptions C13_reject_label_list.
+
+(** class "duplicate step name" (or a step named like the internal source node) *)
+Theorem C13_reject_dup_step : forall d : jv, ~ NoDup (source_name :: step_names d) ->
+  exists dg, build d = Reject (Diag dg).
+Proof. exact reject_dup_step_names. Qed.
+Print Assumptions C13_reject_dup_step.
+
+(** ... as a mutation: repeating the i-th step at the end of the study *)
+Theorem C13_reject_repeat_step : forall (l : list (str * jv)) (i : nat) (st : jv),
+  has_key (s "study") l = true -> nth_error (doc_steps (JObj l)) i = Some st ->
+  exists dg, build (set_study (JObj l) (doc_steps (JObj l) ++ [st])) = Reject (Diag dg).
+Proof. exact reject_repeat_step. Qed.
+Print Assumptions C13_reject_repeat_step.
+
+(** class "self dependency" (x, x_*, x* ...) *)
+Theorem C13_reject_self_dependency : forall (d st : jv) (dep : str),
+  In st (doc_steps d) -> In dep (step_depends st) -> strip_stars dep = str_of (field (s "name") st) ->
+  exists dg, build d = Reject (Diag dg).
+Proof. exact reject_self_dependency. Qed.
+Print Assumptions C13_reject_self_dependency.
+
+(** class "dependency on an undefined step" *)
+Theorem C13_reject_undefined_dependency : forall (d st : jv) (dep : str),
+  In st (doc_steps d) -> In dep (step_depends st) ->
+  ~ In (strip_stars dep) (source_name :: step_names d) ->
+  exists dg, build d = Reject (Diag dg).
+Proof. exact reject_undefined_dependency. Qed.
+Print Assumptions C13_reject_undefined_dependency.
+
+(** class "value lists of different lengths" *)
+Theorem C13_reject_param_length : forall (d : jv) (n m : nat),
+  In n (param_lengths d) -> In m (param_lengths d) -> n <> m ->
+  exists dg, build d = Reject (Diag dg).
+Proof. exact reject_param_length_mismatch. Qed.
+Print Assumptions C13_reject_param_length.
+
+(** class "duplicate variable / label / dependency name" (in the loaded document) *)
+Theorem C13_reject_dup_env_name : forall d : jv, ~ NoDup (env_names d) ->
+  exists dg, build d = Reject (Diag dg).
+Proof. exact reject_dup_env_names. Qed.
+Print Assumptions C13_reject_dup_env_name.
+
+(** FULL statement of C13_stageable (DESIGN 5): accepted /\ H8 (hygiene of C08:
+    no external dependencies to acquire, plain names, no workspace references)
+    => [Study.stage] returns an execution graph.
+    PROVED PART: accepted => node names are unique and every dependency of the
+    i-th step names the source node or one of the first i steps, never the step
+    itself -- the graph handed to [stage] is topologically ordered by insertion,
+    so its cycle check passes and every parent it looks up exists.
+    MISSING: the expansion performed by [stage] itself (parameter combinations,
+    workspace substitution; model Expand/, property C08) and its file-system
+    effects are not composed with this model; the harness stages every accepted
+    document inside the hygiene domain for real and counts a step without a
+    staged instance as dropped. *)
+Theorem C13_stageable_partial : forall (d : jv) (ns : list str),
+  build d = Accept ns ->
+  NoDup (source_name :: ns) /\
+  forall i st dep, nth_error (doc_steps d) i = Some st -> In dep (step_depends st) ->
+    In (strip_stars dep) (source_name :: firstn i ns) /\ strip_stars dep <> str_of (field (s "name") st).
+Proof. exact accepted_topological. Qed.
+Print Assumptions C13_stageable_partial.
+
+(** Known finding K5: FULL statement of the monitor theorem is
+    [forall doc, C13_ok doc (verify_and_build doc) = true]; it is refuted by a
+    document whose env.variables repeats a key (signature [sig_K5]). *)
+Theorem C13_K5_refuted : exists doc : jv,
+  sig_K5 doc (verify_and_build doc) = true /\ C13_ok doc (verify_and_build doc) = false.
+Proof. exact K5_refuted. Qed.
+Print Assumptions C13_K5_refuted.
+
+(* ============================================================ non-vacuity *)
+Example ex_accepted : build ex_doc = Accept [s "a"; s "b"] /\ malformed ex_doc = false /\ nodupkeys ex_doc = true.
+Proof. vm_compute. repeat split; reflexivity. Qed.
+
+(** the hypotheses of the schema classes are satisfiable on [ex_doc] *)
+Example ex_delete_required :
+  match value_at ex_doc p_run0, schema_at DOC p_run0 with
+  | Some (JObj _), Some sc => mem_str (s "cmd") (required_of sc)
+  | _, _ => false
+  end = true /\
+  build (set_at ex_doc p_run0 (JObj (remove_key (s "cmd") (obj_items (field (s "run") (ex_step (s "a") [])))))) =
+  Reject (Diag DSchemaStep).
+Proof. vm_compute. split; reflexivity. Qed.
+Example ex_empty_string :
+  match value_at ex_doc p_cmd0, schema_at DOC p_cmd0 with
+  | Some _, Some sc => Nat.leb 1 (min_length_of sc)
+  | _, _ => false
+  end = true /\ build (set_at ex_doc p_cmd0 (JStr [])) = Reject (Diag DSchemaStep).
+Proof. vm_compute. split; reflexivity. Qed.
+Example ex_unknown_key :
+  match value_at ex_doc p_step1, schema_at DOC p_step1 with
+  | Some (JObj _), Some sc =>
+      closed_of sc && match pattern_all_of sc with None => true | _ => false end &&
+      negb (mem_str (s "bogus") (map fst (props_of sc)))
+  | _, _ => false
+  end = true.
+Proof. vm_compute. reflexivity. Qed.
+Example ex_wrong_type :
+  match value_at ex_doc p_cmd0, schema_at DOC p_cmd0 with
+  | Some _, Some sc => match type_of sc with Some t => negb (has_type t (JInt 5)) | None => false end
+  | _, _ => false
+  end = true /\ build (set_at ex_doc p_cmd0 (JInt 5)) = Reject (Diag DSchemaStep).
+Proof. vm_compute. split; reflexivity. Qed.
+Example ex_no_alternative :
+  match schema_at DOC p_prio0 with
+  | Some [KAnyOf ss] => forallb (fun a => negb (valid a (JStr (s "urgent")))) ss
+  | _ => false
+  end = true.
+Proof. vm_compute. reflexivity. Qed.
+Example ex_semantic :
+  build (set_study ex_doc (doc_steps ex_doc ++ [ex_step (s "a") []])) = Reject (Diag DDupStep) /\
+  build (set_study ex_doc [ex_step (s "a") [s "a_*"]]) = Reject (Diag DSelfDep) /\
+  build (set_study ex_doc [ex_step (s "a") [s "nope"]]) = Reject (Diag DUnknownDep) /\
+  build (set_study ex_doc [ex_step (s "b") [s "a"]; ex_step (s "a") []]) = Reject (Diag DUnknownDep).
+Proof. vm_compute. repeat split; reflexivity. Qed.
+Example ex_priority_enum_nonempty : priority_enum <> [].
+Proof. exact priority_enum_nonempty. Qed.
